@@ -2,7 +2,13 @@ package main
 
 import (
 	"fmt"
+	"runtime"
 	"strings"
+	"sync"
+	"time"
+
+	pbredis "github.com/samaritan-proxy/samaritan/pb/config/protocol/redis"
+	"github.com/samaritan-proxy/samaritan/proc/redis"
 
 	"verifharness/hx"
 )
@@ -18,8 +24,139 @@ func (c04) Rule() string {
 		"handed over at once, and masters replaced by replicas; 4..30 steps over 8 keys spread over all nodes. Non-trivial = a command is issued while its slot is migrating or after a hand-over the proxy has not heard of; distinct by op line"
 }
 
+// c04.askpair   slot of key ka is migrating from node 0 to node 1 and ka is not on node 0 any more; client 1 pipelines SET ka v1, GET ka.
+// The read loop of node 0's connection follows the ASK: ASKING, then the command.  It is parked right before the command is enqueued
+// on node 1's connection (pause point client.send.checked reached from handleRedirection, second time); client 2 then asks node 1
+// for kb; 300 ms later the parked send goes on.  ASKING counts for the next command only: whatever gets between the two takes it.
+//
+//	-> c1=<reply of SET>,<reply of GET> c2=<reply of GET kb> final=<GET ka afterwards>
+func c04AskPair() string {
+	fc, err := hx.NewFakeCluster(2)
+	if err != nil {
+		return "sockerr"
+	}
+	defer fc.Close()
+	for s := 0; s < 16384; s++ {
+		fc.SetOwner(s, s%2)
+	}
+	var ka, kb []byte
+	for i := 0; ka == nil || kb == nil; i++ {
+		k := []byte(fmt.Sprintf("key:p%d", i))
+		if hx.SlotOf(k)%2 == 0 && ka == nil {
+			ka = k
+		} else if hx.SlotOf(k)%2 == 1 && kb == nil {
+			kb = k
+		}
+	}
+	p, err := hx.NewRedisProc(fc, 2, pbredis.ReadStrategy_MASTER)
+	if err != nil {
+		return "procerr"
+	}
+	defer hx.DropScopes("service." + p.Name() + ".")
+	defer func() {
+		done := make(chan struct{})
+		go func() { p.Stop(); close(done) }()
+		select {
+		case <-done:
+		case <-time.After(3 * time.Second):
+		}
+	}()
+	time.Sleep(70 * time.Millisecond)
+	c1, err := hx.DialClient(p.Address())
+	if err != nil {
+		return "sockerr"
+	}
+	defer c1.C.Close()
+	c2, err := hx.DialClient(p.Address())
+	if err != nil {
+		return "sockerr"
+	}
+	defer c2.C.Close()
+	if v, err := c2.Do([]byte("set"), kb, []byte("vb")); err != nil || clusterRender(v) != "s4f4b" {
+		return "setup-failed"
+	}
+	fc.Migrate(hx.SlotOf(ka), 1)
+	var mu sync.Mutex
+	n := 0
+	reached, release := make(chan struct{}), make(chan struct{})
+	redis.VerifSetPause(func(point string, obj interface{}) {
+		if point != "client.send.checked" {
+			return
+		}
+		var pcs [32]uintptr
+		k := runtime.Callers(2, pcs[:])
+		fr := runtime.CallersFrames(pcs[:k])
+		for {
+			f, more := fr.Next()
+			if strings.HasSuffix(f.Function, "(*upstream).handleRedirection") {
+				mu.Lock()
+				n++
+				park := n == 2
+				mu.Unlock()
+				if park {
+					close(reached)
+					<-release
+				}
+				return
+			}
+			if !more {
+				return
+			}
+		}
+	})
+	defer redis.VerifSetPause(nil)
+	if err := c1.Write([]byte("set"), ka, []byte("v1")); err != nil {
+		return "sockerr"
+	}
+	select {
+	case <-reached:
+	case <-time.After(3 * time.Second):
+		close(release)
+		return "not-parked"
+	}
+	if err := c1.Write([]byte("get"), ka); err != nil {
+		close(release)
+		return "sockerr"
+	}
+	r2 := make(chan string, 1)
+	go func() {
+		v, err := c2.Do([]byte("get"), kb)
+		if err != nil {
+			r2 <- "!" + err.Error()
+			return
+		}
+		r2 <- clusterRender(v)
+	}()
+	time.Sleep(300 * time.Millisecond)
+	close(release)
+	out := []string{}
+	for i := 0; i < 2; i++ {
+		c1.C.SetReadDeadline(time.Now().Add(3 * time.Second))
+		v, err := c1.Reply()
+		if err != nil {
+			out = append(out, "!none")
+			break
+		}
+		out = append(out, clusterRender(v))
+	}
+	got2 := "!none"
+	select {
+	case got2 = <-r2:
+	case <-time.After(3 * time.Second):
+	}
+	fin := "!none"
+	c1.C.SetReadDeadline(time.Now().Add(3 * time.Second))
+	if v, err := c1.Do([]byte("get"), ka); err == nil {
+		fin = clusterRender(v)
+	}
+	return fmt.Sprintf("c1=%s c2=%s final=%s", strings.Join(out, ","), got2, fin)
+}
+
 func (c04) Exec(op string) string {
 	f := hx.Fields(op)
+	if len(f) == 1 && f[0] == "c04.askpair" {
+		return recoverStr(c04AskPair)
+	}
 	if len(f) < 4 || (f[0] != "c04.cl" && f[0] != "c04.strict") {
 		return "bad-op"
 	}
@@ -43,6 +180,9 @@ func keysByNode() [3][]string {
 }
 
 func (c04) Gen(r *hx.Run) {
+	for i := 0; i < r.N(2, 10); i++ {
+		r.Do("c04.askpair", true, "asking-pair")
+	}
 	rng := r.Rng
 	kb := keysByNode()
 	a, b := kb[0][0], kb[1][0]
